@@ -51,6 +51,23 @@ theorem C16_direct_greens_function (A : Matrix n n K) (Kv Lv : Matrix n m K) (pi
     A.mulVec ((1 - Kv * Lv.conjTranspose).mulVec z) = (1 - Kv * Lv.conjTranspose).mulVec v ∧
     (1 - Kv * Lv.conjTranspose).mulVec ((1 - Kv * Lv.conjTranspose).mulVec z) = (1 - Kv * Lv.conjTranspose).mulVec z :=
   Greens.direct_solve A Kv Lv piv hK hL hbi hpiv v z hz
+omit [StarRing K] in
+/-- **C16** the direct solver, right-implicit orientation `(i, B)`: the rows it solves one by one (constrained solves of the transposed problem
+for the levels `e a`) assemble to a solution of `E_i V − V H_0 = Y P` that lies in the range of the projector — for any `H_0`, any `P` -/
+theorem C16_direct_right_implicit {α : Type} [Fintype α] [DecidableEq α] (H P : Matrix n n K) (e : α → K) (x y : α → n → K)
+    (hsolve : ∀ a, (e a • (1 : Matrix n n K) - H.transpose).mulVec (x a) = P.transpose.mulVec (y a))
+    (hrange : ∀ a, P.transpose.mulVec (x a) = x a) :
+    Matrix.diagonal e * Matrix.of x - Matrix.of x * H = Matrix.of y * P ∧ Matrix.of x * P = Matrix.of x :=
+  Greens.rows_assemble H P e x y hsolve hrange
+
+omit [StarRing K] in
+/-- **C16** the direct solver, left-implicit orientation `(B, i)`: the columns assemble to a solution of `H_0 V − V E_i = P Y` in the range -/
+theorem C16_direct_left_implicit {α : Type} [Fintype α] [DecidableEq α] (H P : Matrix n n K) (e : α → K) (x y : α → n → K)
+    (hsolve : ∀ a, (H - e a • (1 : Matrix n n K)).mulVec (x a) = P.mulVec (y a))
+    (hrange : ∀ a, P.mulVec (x a) = x a) :
+    H * (Matrix.of x).transpose - (Matrix.of x).transpose * Matrix.diagonal e = P * (Matrix.of y).transpose ∧
+      P * (Matrix.of x).transpose = (Matrix.of x).transpose :=
+  Greens.cols_assemble H P e x y hsolve hrange
 end direct
 
 section secondquant
